@@ -233,7 +233,7 @@ class Encoder:
                 else:
                     reason = e['reason']
                     why = 'hash' if ('hash mismatch' in reason or "Can't write" in reason) else 'keepalive' if 'Keep alive' in reason else \
-                        'badrequest' if ('in Request' in reason and not e.get('called')) else 'other'
+                        'badrequest' if ('in Request' in reason and not e.get('called') and e['trig'].get('k') == 'Request') else 'other'
                     rec.update(e='Exit', why=why, reason=reason)
                 out.append(rec)
         return out
